@@ -4,11 +4,11 @@ import SqlProofs.Lex.Comments
 /-!
 # SqlProofs.LexRegions — an opaque region is one token
 
-For each region kind the generated rule is pinned to a parametric template by a definitional equation
-(`Gen.reN = template literal-classes`, so a change of the regular expression in the source breaks the proof),
-every earlier rule of the generated table is shown unable to match at the opener (by computation of `start`
-over the table, plus a direct argument for the hint rules that share the opener), and the closed form of the
-template gives the end of the first derivation.
+For each region kind one table obligation `…_rule_first` (a computation over the generated table, `firstWith`) says: the table contains
+the rule `⟨template, action⟩` — compared by content, so no rule index and no atom number is mentioned — and every rule before its first
+occurrence cannot start at the opener's first character (`start … = dead`) or is the hint rule sharing the opener, which fails by a direct
+argument.  The closed form of the template then gives the end of the first derivation.  Inserting, removing or reordering rules that
+cannot start at the opener leaves every obligation intact; changing the regular expression of the region's rule breaks it.
 -/
 namespace Sql
 
@@ -29,31 +29,29 @@ def lineRe : Re := .cat lineOpenRe (.cat (.rep 0 none false (.set csDot)) (eolRe
 def lineHintRe : Re :=
   .cat lineOpenRe (.cat (.set (cs 43)) (.cat (.rep 0 none false (.set csDot)) (eolRe 2 (cs 13) (cs 10))))
 
-/-! ## the generated rules are instances of the templates -/
+/-! ## table obligations, by content -/
 
-theorem re0_eq : Gen.re0 = lineHintRe := rfl
-theorem re1_eq : Gen.re1 = blockHintRe := rfl
-theorem re2_eq : Gen.re2 = lineRe := rfl
-theorem re3_eq : Gen.re3 = blockRe := rfl
-theorem re9_eq : Gen.re9 = nameRe 1 (cs 96) (csNot 96) := rfl
-theorem re10_eq : Gen.re10 = nameRe 1 (cs 180) (csNot 180) := rfl
-theorem re25_eq : Gen.re25 = strRe 1 (cs 39) (cs 92) (csNot 39) := rfl
-theorem re26_eq : Gen.re26 = strRe 1 (cs 34) (cs 92) (csNot 34) := rfl
+def hintLineTy : TType := ["Comment", "Single", "Hint"]
+def hintBlockTy : TType := ["Comment", "Multiline", "Hint"]
 
-/-! ## no earlier rule can start at the opener (computed over the generated table) -/
-
-theorem dead_before_backtick : ((Gen.rules.take 9).all fun r => start 96 r.re == .dead) = true := by decide +kernel
-theorem dead_before_acute : ((Gen.rules.take 10).all fun r => start 180 r.re == .dead) = true := by decide +kernel
-theorem dead_before_squote : ((Gen.rules.take 25).all fun r => start 39 r.re == .dead) = true := by decide +kernel
-theorem dead_before_dquote : ((Gen.rules.take 26).all fun r => start 34 r.re == .dead) = true := by decide +kernel
-theorem dead_slash : (start 47 Gen.re0 == .dead && start 47 Gen.re2 == .dead) = true := by decide +kernel
-theorem dead_dash_hash : (start 45 Gen.re1 == .dead && start 35 Gen.re1 == .dead) = true := by decide +kernel
-
-theorem dead_at (E : Env) (c : Cp) (r : Re) (h : start c r = .dead) (p : Nat) (hc : E.s[p]? = some c) :
-    derivs E r ⟨p, []⟩ = [] := by
-  have := start_sound E c r
-  rw [h] at this
-  exact this ⟨p, []⟩ hc
+theorem squote_rule_first :
+    firstWith (deadOn 39) ⟨strRe 1 (cs 39) (cs 92) (csNot 39), .tok T.StringSingle⟩ defaultCfg.rules = true := by decide +kernel
+theorem dquote_rule_first :
+    firstWith (deadOn 34) ⟨strRe 1 (cs 34) (cs 92) (csNot 34), .tok T.StringSymbol⟩ defaultCfg.rules = true := by decide +kernel
+theorem backtick_rule_first :
+    firstWith (deadOn 96) ⟨nameRe 1 (cs 96) (csNot 96), .tok T.Name⟩ defaultCfg.rules = true := by decide +kernel
+theorem acute_rule_first :
+    firstWith (deadOn 180) ⟨nameRe 1 (cs 180) (csNot 180), .tok T.Name⟩ defaultCfg.rules = true := by decide +kernel
+theorem block_rule_first :
+    firstWith (fun x => deadOn 47 x || x.re == blockHintRe) ⟨blockRe, .tok T.CommentMultiline⟩ defaultCfg.rules = true := by
+  decide +kernel
+theorem block_hint_rule_first :
+    firstWith (deadOn 47) ⟨blockHintRe, .tok hintBlockTy⟩ defaultCfg.rules = true := by decide +kernel
+theorem line_rule_first :
+    firstWith (fun x => (deadOn 45 x && deadOn 35 x) || x.re == lineHintRe) ⟨lineRe, .tok T.CommentSingle⟩ defaultCfg.rules = true := by
+  decide +kernel
+theorem line_hint_rule_first :
+    firstWith (fun x => deadOn 45 x && deadOn 35 x) ⟨lineHintRe, .tok hintLineTy⟩ defaultCfg.rules = true := by decide +kernel
 
 /-! ## reading the subject -/
 
@@ -64,9 +62,8 @@ theorem sfx_of_split (s : Array Cp) (pre l : List Cp) (p : Nat) (h : s.toList = 
 
 /-! ## quoted strings and names -/
 
-theorem quoted_token (s : Array Cp) (p : Nat) (pre body rest : List Cp) (qc : Nat) (i : Nat) (r : Rule) (post : List Rule)
-    (noBs : Bool) (hsplit : defaultCfg.rules = Gen.rules.take i ++ r :: post)
-    (hdead : ((Gen.rules.take i).all fun r => start qc r.re == .dead) = true)
+theorem quoted_token (s : Array Cp) (p : Nat) (pre body rest : List Cp) (qc : Nat) (r : Rule)
+    (noBs : Bool) (hfw : firstWith (deadOn qc) r defaultCfg.rules = true)
     (hhead : ∀ E : Env, E.s.toList.drop p = qc :: (body ++ qc :: rest) → QBody qc noBs body → rest.head? ≠ some qc →
       ∃ st more, derivs E r.re ⟨p, []⟩ = st :: more ∧ st.pos = p + 1 + body.length + 1)
     (h : s.toList = pre ++ [qc] ++ body ++ [qc] ++ rest) (hp : pre.length = p)
@@ -74,16 +71,16 @@ theorem quoted_token (s : Array Cp) (p : Nat) (pre body rest : List Cp) (qc : Na
     firstMatch (defaultCfg.env s) defaultCfg.rules p = some (r.act, p + 1 + body.length + 1) := by
   have h0 : (defaultCfg.env s).s.toList.drop p = qc :: (body ++ qc :: rest) :=
     sfx_of_split s pre _ p (by simpa using h) hp
+  have hc := get_of_drop_cons _ _ _ _ h0
   obtain ⟨st, more, hd, hpos⟩ := hhead _ h0 hb hr
-  have hpre := no_match_of_start (defaultCfg.env s) qc (Gen.rules.take i) hdead p (get_of_drop_cons _ _ _ _ h0)
-  rw [hsplit, firstMatch_split _ _ r post p hpre st more hd, hpos]
+  rw [firstMatch_first _ (deadOn qc) r _ p hfw (fun x hx => deadOn_at _ qc x hx p hc) st more hd, hpos]
 
 /-- `'body'` -/
 theorem single_quoted_token (s : Array Cp) (p : Nat) (pre body rest : List Cp)
     (h : s.toList = pre ++ [39] ++ body ++ [39] ++ rest) (hp : pre.length = p)
     (hb : QBody 39 true body) (hr : rest.head? ≠ some 39) :
     firstMatch (defaultCfg.env s) defaultCfg.rules p = some (.tok T.StringSingle, p + 1 + body.length + 1) :=
-  quoted_token s p pre body rest 39 25 Gen.rule25 (Gen.rules.drop 26) true rfl dead_before_squote
+  quoted_token s p pre body rest 39 _ true squote_rule_first
     (fun E h0 hb hr => strRe_head E 1 39 _ _ _ (quoteSets 39 (by decide)) (cs_mem 92) (by decide) p body rest h0 hb hr)
     h hp hb hr
 
@@ -92,7 +89,7 @@ theorem double_quoted_token (s : Array Cp) (p : Nat) (pre body rest : List Cp)
     (h : s.toList = pre ++ [34] ++ body ++ [34] ++ rest) (hp : pre.length = p)
     (hb : QBody 34 true body) (hr : rest.head? ≠ some 34) :
     firstMatch (defaultCfg.env s) defaultCfg.rules p = some (.tok T.StringSymbol, p + 1 + body.length + 1) :=
-  quoted_token s p pre body rest 34 26 Gen.rule26 (Gen.rules.drop 27) true rfl dead_before_dquote
+  quoted_token s p pre body rest 34 _ true dquote_rule_first
     (fun E h0 hb hr => strRe_head E 1 34 _ _ _ (quoteSets 34 (by decide)) (cs_mem 92) (by decide) p body rest h0 hb hr)
     h hp hb hr
 
@@ -101,7 +98,7 @@ theorem backtick_name_token (s : Array Cp) (p : Nat) (pre body rest : List Cp)
     (h : s.toList = pre ++ [96] ++ body ++ [96] ++ rest) (hp : pre.length = p)
     (hb : QBody 96 false body) (hr : rest.head? ≠ some 96) :
     firstMatch (defaultCfg.env s) defaultCfg.rules p = some (.tok T.Name, p + 1 + body.length + 1) :=
-  quoted_token s p pre body rest 96 9 Gen.rule9 (Gen.rules.drop 10) false rfl dead_before_backtick
+  quoted_token s p pre body rest 96 _ false backtick_rule_first
     (fun E h0 hb hr => nameRe_head E 1 96 _ _ (quoteSets 96 (by decide)) p body rest h0 hb hr)
     h hp hb hr
 
@@ -110,7 +107,7 @@ theorem acute_name_token (s : Array Cp) (p : Nat) (pre body rest : List Cp)
     (h : s.toList = pre ++ [180] ++ body ++ [180] ++ rest) (hp : pre.length = p)
     (hb : QBody 180 false body) (hr : rest.head? ≠ some 180) :
     firstMatch (defaultCfg.env s) defaultCfg.rules p = some (.tok T.Name, p + 1 + body.length + 1) :=
-  quoted_token s p pre body rest 180 10 Gen.rule10 (Gen.rules.drop 11) false rfl dead_before_acute
+  quoted_token s p pre body rest 180 _ false acute_rule_first
     (fun E h0 hb hr => nameRe_head E 1 180 _ _ (quoteSets 180 (by decide)) p body rest h0 hb hr)
     h hp hb hr
 
@@ -132,29 +129,20 @@ theorem block_comment_token (s : Array Cp) (p : Nat) (pre body rest : List Cp)
   have hc := get_of_drop_cons _ _ _ _ h0
   obtain ⟨more, hm⟩ := lazy_close2_head (defaultCfg.env s) csAll (cs 42) (cs 47) 42 47 (cs_mem 42) (cs_mem 47) csAll_mem
     (by decide) body rest ⟨p + 2, []⟩ h2 hle hno
-  have hr3 : derivs (defaultCfg.env s) Gen.rule3.re ⟨p, []⟩ = ⟨p + 2 + body.length + 2, []⟩ :: more := by
-    show derivs _ Gen.re3 _ = _
-    rw [re3_eq, blockRe, derivs_cat_set_ok _ _ _ _ 47 _ h0 c47, derivs_cat_set_ok _ _ _ _ 42 _ h1 c42]
+  have hr3 : derivs (defaultCfg.env s) blockRe ⟨p, []⟩ = ⟨p + 2 + body.length + 2, []⟩ :: more := by
+    rw [blockRe, derivs_cat_set_ok _ _ _ _ 47 _ h0 c47, derivs_cat_set_ok _ _ _ _ 42 _ h1 c42]
     exact hm
-  have hpre : ∀ x ∈ Gen.rules.take 3, derivs (defaultCfg.env s) x.re ⟨p, []⟩ = [] := by
+  have hpre : ∀ x : Rule, (deadOn 47 x || x.re == blockHintRe) = true → derivs (defaultCfg.env s) x.re ⟨p, []⟩ = [] := by
     intro x hx
-    have h3 : Gen.rules.take 3 = [Gen.rule0, Gen.rule1, Gen.rule2] := rfl
-    rw [h3] at hx
-    have hd := dead_slash
-    simp only [Bool.and_eq_true, beq_iff_eq] at hd
-    simp only [List.mem_cons, List.not_mem_nil, or_false] at hx
-    rcases hx with rfl | rfl | rfl
-    · exact dead_at _ 47 _ hd.1 p hc
-    · show derivs _ Gen.re1 _ = _
-      rw [re1_eq, blockHintRe, derivs_cat_set_ok _ _ _ _ 47 _ h0 c47, derivs_cat_set_ok _ _ _ _ 42 _ h1 c42]
+    simp only [Bool.or_eq_true, beq_iff_eq] at hx
+    rcases hx with hx | hx
+    · exact deadOn_at _ 47 x hx p hc
+    · rw [hx, blockHintRe, derivs_cat_set_ok _ _ _ _ 47 _ h0 c47, derivs_cat_set_ok _ _ _ _ 42 _ h1 c42]
       cases body with
       | nil => exact derivs_cat_set_fail _ _ _ _ 42 _ h2 (memF (cs_mem 43 42) (by decide))
       | cons c t =>
         exact derivs_cat_set_fail _ _ _ _ c _ h2 (memF (cs_mem 43 c) (by intro hc; subst hc; exact hplus rfl))
-    · exact dead_at _ 47 _ hd.2 p hc
-  have hsplit : defaultCfg.rules = Gen.rules.take 3 ++ Gen.rule3 :: Gen.rules.drop 4 := rfl
-  rw [hsplit, firstMatch_split _ _ Gen.rule3 _ p hpre _ more hr3]
-  rfl
+  rw [firstMatch_first _ _ ⟨blockRe, .tok T.CommentMultiline⟩ _ p block_rule_first hpre _ more hr3]
 
 /-- `/*+body*/` -/
 theorem block_hint_token (s : Array Cp) (p : Nat) (pre body rest : List Cp)
@@ -170,22 +158,12 @@ theorem block_hint_token (s : Array Cp) (p : Nat) (pre body rest : List Cp)
   have hc := get_of_drop_cons _ _ _ _ h0
   obtain ⟨more, hm⟩ := lazy_close2_head (defaultCfg.env s) csAll (cs 42) (cs 47) 42 47 (cs_mem 42) (cs_mem 47) csAll_mem
     (by decide) body rest ⟨p + 3, []⟩ h3 hle hno
-  have hr1 : derivs (defaultCfg.env s) Gen.rule1.re ⟨p, []⟩ = ⟨p + 3 + body.length + 2, []⟩ :: more := by
-    show derivs _ Gen.re1 _ = _
-    rw [re1_eq, blockHintRe, derivs_cat_set_ok _ _ _ _ 47 _ h0 c47, derivs_cat_set_ok _ _ _ _ 42 _ h1 c42,
+  have hr1 : derivs (defaultCfg.env s) blockHintRe ⟨p, []⟩ = ⟨p + 3 + body.length + 2, []⟩ :: more := by
+    rw [blockHintRe, derivs_cat_set_ok _ _ _ _ 47 _ h0 c47, derivs_cat_set_ok _ _ _ _ 42 _ h1 c42,
       derivs_cat_set_ok _ _ _ _ 43 _ h2 c43]
     exact hm
-  have hpre : ∀ x ∈ Gen.rules.take 1, derivs (defaultCfg.env s) x.re ⟨p, []⟩ = [] := by
-    intro x hx
-    have h3 : Gen.rules.take 1 = [Gen.rule0] := rfl
-    rw [h3] at hx
-    have hd := dead_slash
-    simp only [Bool.and_eq_true, beq_iff_eq] at hd
-    simp only [List.mem_cons, List.not_mem_nil, or_false] at hx
-    subst hx
-    exact dead_at _ 47 _ hd.1 p hc
-  have hsplit : defaultCfg.rules = Gen.rules.take 1 ++ Gen.rule1 :: Gen.rules.drop 2 := rfl
-  rw [hsplit, firstMatch_split _ _ Gen.rule1 _ p hpre _ more hr1]
+  rw [firstMatch_first _ _ ⟨blockHintRe, .tok hintBlockTy⟩ _ p block_hint_rule_first
+    (fun x hx => deadOn_at _ 47 x hx p hc) _ more hr1]
   rfl
 
 /-! ## line comments -/
@@ -235,21 +213,24 @@ theorem line_comment_token (s : Array Cp) (p : Nat) (pre op body close rest : Li
   have hopen := line_open _ p op _ hop h0
   obtain ⟨st', more, hd, hpos⟩ := line_tail_head (defaultCfg.env s) 2 csDot (cs 13) (cs 10) csDot_mem (cs_mem 13) (cs_mem 10)
     body close rest ⟨p + 2, [(1, p, p + 2)]⟩ h2 hbody hctx hsz
-  have hr2 : derivs (defaultCfg.env s) Gen.rule2.re ⟨p, []⟩ = st' :: more := by
-    show derivs _ Gen.re2 _ = _
-    rw [re2_eq, lineRe, derivs_cat, hopen]
+  have hr2 : derivs (defaultCfg.env s) lineRe ⟨p, []⟩ = st' :: more := by
+    rw [lineRe, derivs_cat, hopen]
     simp only [List.flatMap_cons, List.flatMap_nil, List.append_nil]
     exact hd
-  have hpre : ∀ x ∈ Gen.rules.take 2, derivs (defaultCfg.env s) x.re ⟨p, []⟩ = [] := by
+  have hdead : ∀ x : Rule, (deadOn 45 x && deadOn 35 x) = true → derivs (defaultCfg.env s) x.re ⟨p, []⟩ = [] := by
     intro x hx
-    have h3 : Gen.rules.take 2 = [Gen.rule0, Gen.rule1] := rfl
-    rw [h3] at hx
-    have hd := dead_dash_hash
-    simp only [Bool.and_eq_true, beq_iff_eq] at hd
-    simp only [List.mem_cons, List.not_mem_nil, or_false] at hx
-    rcases hx with rfl | rfl
-    · show derivs _ Gen.re0 _ = _
-      rw [re0_eq, lineHintRe, derivs_cat, hopen]
+    simp only [Bool.and_eq_true] at hx
+    rcases lineOpen_first _ p op _ hop h0 with hc | hc
+    · exact deadOn_at _ 45 x hx.1 p hc
+    · exact deadOn_at _ 35 x hx.2 p hc
+  have hpre : ∀ x : Rule, ((deadOn 45 x && deadOn 35 x) || x.re == lineHintRe) = true →
+      derivs (defaultCfg.env s) x.re ⟨p, []⟩ = [] := by
+    intro x hx
+    rw [Bool.or_eq_true] at hx
+    rcases hx with hx | hx
+    · exact hdead x hx
+    · simp only [beq_iff_eq] at hx
+      rw [hx, lineHintRe, derivs_cat, hopen]
       simp only [List.flatMap_cons, List.flatMap_nil, List.append_nil]
       -- the character after the opener is not `+`
       cases body with
@@ -262,12 +243,7 @@ theorem line_comment_token (s : Array Cp) (p : Nat) (pre op body close rest : Li
       | cons c t =>
         exact derivs_cat_set_fail _ _ _ _ c _ (by simpa using h2)
           (memF (cs_mem 43 c) (by intro hc; subst hc; exact hplus rfl))
-    · rcases lineOpen_first _ p op _ hop h0 with hc | hc
-      · exact dead_at _ 45 _ hd.1 p hc
-      · exact dead_at _ 35 _ hd.2 p hc
-  have hsplit : defaultCfg.rules = Gen.rules.take 2 ++ Gen.rule2 :: Gen.rules.drop 3 := rfl
-  rw [hsplit, firstMatch_split _ _ Gen.rule2 _ p hpre st' more hr2, hpos]
-  rfl
+  rw [firstMatch_first _ _ ⟨lineRe, .tok T.CommentSingle⟩ _ p line_rule_first hpre st' more hr2, hpos]
 
 /-- `--+body EOL` / `# +body EOL` -/
 theorem line_hint_token (s : Array Cp) (p : Nat) (pre op body close rest : List Cp) (hop : LineOpen op)
@@ -287,14 +263,18 @@ theorem line_hint_token (s : Array Cp) (p : Nat) (pre op body close rest : List 
   have hopen := line_open _ p op _ hop h0
   obtain ⟨st', more, hd, hpos⟩ := line_tail_head (defaultCfg.env s) 2 csDot (cs 13) (cs 10) csDot_mem (cs_mem 13) (cs_mem 10)
     body close rest ⟨p + 2 + 1, [(1, p, p + 2)]⟩ h3 hbody hctx hsz
-  have hr0 : derivs (defaultCfg.env s) Gen.rule0.re ⟨p, []⟩ = st' :: more := by
-    show derivs _ Gen.re0 _ = _
-    rw [re0_eq, lineHintRe, derivs_cat, hopen]
+  have hr0 : derivs (defaultCfg.env s) lineHintRe ⟨p, []⟩ = st' :: more := by
+    rw [lineHintRe, derivs_cat, hopen]
     simp only [List.flatMap_cons, List.flatMap_nil, List.append_nil]
     rw [derivs_cat_set_ok _ _ _ _ 43 _ h2 c43]
     exact hd
-  have hsplit : defaultCfg.rules = [] ++ Gen.rule0 :: Gen.rules.drop 1 := rfl
-  rw [hsplit, firstMatch_split _ [] Gen.rule0 _ p (by simp) st' more hr0, hpos]
+  have hdead : ∀ x : Rule, (deadOn 45 x && deadOn 35 x) = true → derivs (defaultCfg.env s) x.re ⟨p, []⟩ = [] := by
+    intro x hx
+    simp only [Bool.and_eq_true] at hx
+    rcases lineOpen_first _ p op _ hop h0 with hc | hc
+    · exact deadOn_at _ 45 x hx.1 p hc
+    · exact deadOn_at _ 35 x hx.2 p hc
+  rw [firstMatch_first _ _ ⟨lineHintRe, .tok hintLineTy⟩ _ p line_hint_rule_first hdead st' more hr0, hpos]
   have : p + 2 + 1 = p + 3 := rfl
   rw [this]
   rfl
